@@ -53,7 +53,9 @@ theorem anaPrologueA64_total (text : List Nat) (pc : Nat) (h : pc ≤ text.lengt
     · exact ⟨_, rfl⟩
     · split
       · exact ⟨_, rfl⟩
-      · split <;> exact ⟨_, rfl⟩
+      · split
+        · exact ⟨_, rfl⟩
+        · split <;> exact ⟨_, rfl⟩
 
 theorem anaEpilogueA64_total (text : List Nat) (pc : Nat) (h : pc ≤ text.length) :
     ∃ r, anaEpilogueA64 text pc = some r := by
